@@ -175,10 +175,13 @@ fn main() {
         }
         "C07" => {
           check_bcast(&mut check, 1);
+          check_e2(&mut check, vec![adapt::Flavour::Broadcast]);
           ("proptest-generated histories of one sender and up to 4 receivers (clone/close/drop/convert, single and batch forms) against a send-log + per-receiver-cursor model; non-trivial = at least one full lap of the ring and two live receivers with different cursors; distinct = hash of the scenario".into(), vec!["sequential histories (no overlapping operations)".into()])
         }
         "C06" => {
-          check_e2(&mut check, adapt::P2P.to_vec());
+          let mut fl = adapt::P2P.to_vec();
+          fl.push(adapt::Flavour::Broadcast);
+          check_e2(&mut check, fl);
           ("E2 generated poll/wake/cancel histories; non-trivial = two tasks pending on one side and one of them cancelled, or a waker replaced, or a sync operation completed an async waiter; distinct = hash of the scenario".into(), vec!["single-threaded executor owned by the harness; wakes are counted per task".into()])
         }
         _ => {
